@@ -57,7 +57,9 @@ def load_variants():
         except Exception:
             continue
         d = os.path.dirname(meta_path)
-        variants.append({"id": "seed:" + os.path.basename(d), "kind": "mutant", "props": meta.get("detected_by", [meta["property"]]),
+        # the property's own check must report the seed; that other properties' checks report it too (meta "detected_by",
+        # refreshed by tools_refresh_meta.sh) is recorded for information only and never a self-test failure
+        variants.append({"id": "seed:" + os.path.basename(d), "kind": "mutant", "props": [meta["property"]],
                          "patch": os.path.join(d, "patch.diff"), "expect": ""})
     for meta_path in sorted(glob.glob(os.path.join(VERIF, "benign", "*", "meta.json"))):
         d = os.path.dirname(meta_path)
